@@ -330,6 +330,7 @@ class Imaging(AbstractDataset):
             noise_covariance_matrix=noise_covariance_matrix,
             over_sampling=self.over_sampling,
             pad_for_convolver=True,
+            use_normalized_psf=self.use_normalized_psf,
         )
 
         dataset.unmasked = unmasked_dataset
@@ -422,6 +423,7 @@ class Imaging(AbstractDataset):
             noise_covariance_matrix=self.noise_covariance_matrix,
             over_sampling=self.over_sampling,
             pad_for_convolver=False,
+            use_normalized_psf=self.use_normalized_psf,
             check_noise_map=False,
         )
 
@@ -475,6 +477,7 @@ class Imaging(AbstractDataset):
             psf=self.psf,
             over_sampling=over_sampling,
             pad_for_convolver=False,
+            use_normalized_psf=self.use_normalized_psf,
             check_noise_map=False,
         )
 
